@@ -10,6 +10,7 @@ import datetime as _dt
 import posixpath
 
 from gen import base as G
+from gen import trashgen as TG
 from model import layout as ML
 from model import trashinfo as TI
 from oracles import put as OP
@@ -106,6 +107,12 @@ def gen(rng):
             x = posixpath.dirname(x)
         G.make_entry(rng, p, rng.choice(['file', 'emptydir', 'link_dangling']), steps, home + '/aux')
         args.append(p)
+        if vol == '/' and rng.random() < 0.1 and len(nm.encode('utf-8', 'surrogateescape')) < 200:
+            # the home trash still holds a .trashinfo WITHOUT payload for this very location, under the plain name (an earlier put was
+            # interrupted, or the payload was taken out by hand): the entry trashed now gets a record of its own, with its own time
+            ht_ = G.home_trash_of(env)
+            steps.append(['f', ht_ + '/info/' + nm + '.trashinfo', G.fmt_info(TG.pct(p), '2001-02-03T04:05:06'), 0o600])
+            steps.append(['d', ht_ + '/files', 0o700])
     if not args:
         steps.append(['f', home + '/w/plain', 'x', 0o644])
         args = [home + '/w/plain']
